@@ -644,15 +644,19 @@ def check_history(steps, use_subprocess=False):
 def shrink_history(steps, idx):
     """Greedy: keep the failing step last, drop earlier steps while some step still fails."""
     steps = list(steps[:idx + 1])
-    budget = 120
-    i = len(steps) - 2
-    while i >= 0 and budget > 0:
-        cand = steps[:i] + steps[i + 1:]
-        budget -= 1
-        res = check_history(cand)
-        if res is not None and res[0] == len(cand) - 1:
-            steps = cand
-        i -= 1
+    budget = 250
+    changed = True
+    while changed and budget > 0:
+        changed = False
+        i = len(steps) - 2
+        while i >= 0 and budget > 0:
+            cand = steps[:i] + steps[i + 1:]
+            budget -= 1
+            res = check_history(cand)
+            if res is not None and res[0] == len(cand) - 1:
+                steps = cand
+                changed = True
+            i -= 1
     return steps
 
 
@@ -664,7 +668,7 @@ class History(Op):
     def gen(self, rng, tier, boost):
         n = (150 if tier == "quick" else 1500) * boost
         for k in range(n):
-            yield (rng.getrandbits(40), rng.choice([25, 40, 70]))
+            yield (rng.randrange(10 ** 11, 10 ** 12), rng.choice([25, 40, 70]))
 
     def line(self, a):
         return "c15hist seed=%d steps=%d" % (a[0], a[1])
@@ -687,13 +691,14 @@ class History(Op):
             modes = len(set(s[1] for s in steps if s[0] == "mode"))
             return "ok steps=%d spellings=%d" % (len(steps), modes)
         idx, msg = res
+        small = steps[:idx + 1]
         try:
-            small = shrink_history(steps, idx)
-            res2 = check_history(small)
-            if res2 is not None:
-                msg = res2[1]
-            else:
-                small = steps[:idx + 1]
+            if History.shrunk < 3:      # the first failures are minimised, the rest only cut
+                History.shrunk += 1
+                cand = shrink_history(steps, idx)
+                res2 = check_history(cand)
+                if res2 is not None:
+                    small, msg = cand[:res2[0] + 1], res2[1]
         except Exception:  # noqa
             small = steps[:idx + 1]
         finally:
@@ -702,6 +707,7 @@ class History(Op):
         return "MISMATCH at step %d of %d" % (idx, len(steps))
 
     subprocesses = False
+    shrunk = 0
 
     def oracle(self, a, out):
         if out.startswith("ok "):
@@ -724,7 +730,7 @@ class HistoryFresh(History):
         else:
             n = 40 * boost
         for k in range(n):
-            yield (rng.getrandbits(40), rng.choice([25, 40]))
+            yield (rng.randrange(10 ** 11, 10 ** 12), rng.choice([25, 40]))
 
     def line(self, a):
         return "c15fresh seed=%d steps=%d" % (a[0], a[1])
@@ -882,7 +888,7 @@ class TableValidation(Op):
             fresh_state(spelling)
             cold[spelling] = one()
         fresh_state()
-        self.last = (short, params, values, warm, cold)
+        self.last = (short, params, values, warm, cold, order)
         return " ".join("%s=%s" % (s, warm[s]) for s in SPELLINGS)
 
     def oracle(self, a, out):
@@ -890,14 +896,18 @@ class TableValidation(Op):
             return None
         if not getattr(self, "last", None):
             return "table validation could not run: " + out
-        short, params, values, warm, cold = self.last
+        short, params, values, warm, cold, order = self.last
         call = "%s(%s)" % (short, ", ".join(repr(v) for v in values))
-        for s in SPELLINGS:
+        for s in order:
             if warm[s] != cold[s]:
-                return ("%s in mode %s returns %s with warm caches (after visiting the other "
-                        "modes) but %s in a fresh state; failing history: %s" % (
+                visited = (order + order)[:len(order) + order.index(s) + 1]
+                if " THEN " not in warm[s] and warm[s].split(" THEN ")[0] != cold[s]:
+                    visited = order[:order.index(s) + 1]
+                return ("%s in mode %s returns %s with warm caches (after visiting other "
+                        "modes) but %s in a fresh state; failing history (from a fresh process, "
+                        "helper reached through its public wrapper): %s" % (
                             call, s, warm[s], cold[s],
-                            "; ".join("set_mode(%r); %s" % (x, call) for x in SPELLINGS)))
+                            "; ".join("set_mode(%r); %s" % (x, call) for x in visited)))
         # spellings of one mode agree
         for s in SPELLINGS:
             canon = oracle.SPELLING[oracle.ALL_SPELLINGS[s]]
